@@ -28,6 +28,14 @@ def _pretty(o):
     }
 
 
+def corrupt(o):
+    """binding self-test: the first recorded query is negated"""
+    if not o["ret"]["ok"] or not o["ret"]["out"]:
+        return None
+    o["ret"]["out"][0] = cps("NOT (") + o["ret"]["out"][0] + cps(")")
+    return o
+
+
 def run(tier: str, seed: int) -> int:
     chk = Check("C01", tier, seed, "model_checking")
     chk.model_check("MC_Render", "MC_Render.cfg" if tier == "quick" else "MC_Render_thorough.cfg")
@@ -35,6 +43,7 @@ def run(tier: str, seed: int) -> int:
     cases = chk.generate("Gen_C01", shards=list(range(n)), env={"VERIF_NSHARDS": n})
     obs = drive("harness.props.c01", "drive_case", cases)
     verdicts = chk.judge("Judge_C01", obs)
+    chk.binding_selftest("Judge_C01", obs, verdicts, corrupt)
     by_id = {o["id"]: _pretty(o) for o in obs}
     chk.absorb(verdicts, by_id, {c["id"]: c for c in cases})
     import json
